@@ -391,21 +391,26 @@ def _noisy(rng, n, t, amp):
 def _auto_fraction_cases(rng: Rng, tier):
     """Structured, present in EVERY run: noisy univariate and multivariate data, both routes, fitted with
     n_components=None and then with fractions DERIVED FROM THAT DECOMPOSITION — for several k a fraction just
-    below and just above the k-th cumulated share (± 1e-6) and the midpoint to the next share."""
+    below and just above the k-th cumulated share (± 1e-6) and the midpoint to the next share.  Grids on a unit
+    domain and more curves than signal directions, with small and with large noise: on the Gram route the small-noise
+    cases have eigenvalues of G below the noise variance (negative after the correction, clipped to 0), the
+    large-noise cases have none."""
     reps = 6 if tier == "thorough" else 1
+    unit = lambda m, uni=None: rng.grid(m, lo=rng.choice([0, -1, 100]), scale=1, uniform=uni)  # noqa: E731
     for _ in range(reps):
         for method in ("covariance", "inner-product"):
-            for amp in (Fraction(1, 4), Fraction(1)):
-                n, m = rng.randint(6, 11), rng.randint(7, 12)
-                t = grid(rng, m)
+            for amp in (Fraction(1, 8), Fraction(1, 2), Fraction(2)):
+                n, m = rng.randint(7, 11), rng.randint(7, 12)
+                t = unit(m)
                 yield dict(kind="ufpca", method=method, normalize=False, sel=["all"], auto_fracs=True, dk="auto-fractions",
                            t=Svec(t), X=Smat(_noisy(rng, n, t, amp)))
-        for method in ("inner-product", "inner-product", "covariance"):
-            n = rng.randint(6, 10)
+        for method, amp in (("inner-product", Fraction(1, 8)), ("inner-product", Fraction(1, 2)), ("inner-product", Fraction(2)),
+                            ("covariance", Fraction(1, 2))):
+            n = rng.randint(7, 10)
             comps = []
             for _p in range(rng.choice([2, 3])):
-                t = grid(rng, rng.randint(6, 10), uniform=True)
-                comps.append(dict(t=Svec(t), X=Smat(_noisy(rng, n, t, rng.choice([Fraction(1, 2), Fraction(1)])))))
+                t = unit(rng.randint(6, 10), True)
+                comps.append(dict(t=Svec(t), X=Smat(_noisy(rng, n, t, amp))))
             yield dict(kind="mfpca", method=method, sel=["all"], auto_fracs=True, comps=comps, dk="auto-fractions")
 
 
@@ -438,6 +443,11 @@ def _mfpca_cases(rng: Rng, tier):
         method = ["inner-product", "covariance"][k % 2]
         sel = rng.choice([["all"], ["int", 2], ["int", 3], ["frac", "9/10"]]) if method == "inner-product" else rng.choice([["int", 2], ["int", 3], ["frac", "9/10"]])
         yield dict(kind="mfpca", method=method, sel=sel, comps=comps, dk="multi")
+    # structured, every run: expansions that give only the method (all defaults), few multivariate components requested
+    for uni_method, k_req in (("UFPCA", 2), ("UFPCA", 3), ("PSplines", 2)):
+        P = rng.choice([2, 3])
+        yield dict(kind="mfpca", method="covariance", sel=["int", k_req], comps=multi_lowrank(rng, P, rng.randint(9, 14), R=5),
+                   uni=[3] * P, uni_keys="omitted", uni_method=uni_method, dk=f"multi-lowrank-P{P}-defaults")
     # covariance route with 2..4 components of different sizes and different numbers of univariate components
     for k in range(60 if tier == "thorough" else 8):
         P = [3, 3, 4, 2][k % 4]
